@@ -28,6 +28,8 @@ def fmt_t(t):
         return "#f"
     if isinstance(t, int):
         return str(t)
+    if t >= 0.5 or abs(float("%.6f" % t) - t) > 1e-9:
+        return ("%.8f" % t)       # round 4: k us + 0.25 us (clock shift, equalised wake times): truncation to us robust against rounding
     return ("%.6f" % t)
 
 
@@ -51,6 +53,91 @@ def fmt_prog(p):
 
 
 # --------------------------------------------------------------------------- generator
+def shift_clock(rng, p):
+    """round 4: the virtual clock starts at <sec>.000000 and the timeouts are <= 2 ms, so the microsecond carry of
+    sexp_insert_timed (now.usec + timeout.usec > 10^6) is never reached.  The root starts one thread and both sleep until
+    just before the next full second (two sleepers: the hook prints no line for a lone thread's wake-up), so that the
+    program's timed waits straddle the second boundary (sums below, exactly at and above 10^6 us)."""
+    main = p["specs"][0]
+    st = [o for o in main if o[0] == "st"]
+    if not st:
+        return p
+    w = st[0][1]
+    main.remove(st[0])
+    before = rng.choice([30, 60, 120, 250, 600, 1100, 2300])      # us left to the full second when the root wakes up
+    ta = (1000000 - before + 0.25) / 1e6
+    tb = (1000000 - before + rng.choice([15, 15, 40, 90, 400]) + 0.25) / 1e6
+    p["specs"][0] = [("st", w), ("z", ta)] + main
+    p["specs"][w] = [("z", tb)] + p["specs"][w]
+    p["shifted"] = True
+    p["expr"] = fmt_prog(p)
+    return p
+
+
+def _eq_op(kind, i, nt, t):
+    if kind == "z":
+        return ("z", t)
+    if kind == "c":
+        return ("c", 0, t, [("y",)])                 # mutex 0 is held by the root: the timed lock blocks
+    if kind == "j":
+        return ("j", nt, t)                          # the last thread sleeps long
+    return ("c", 1, None, [("w", 1, 0, t)])          # timed condvar wait (releases mutex 1 for the next one)
+
+
+def eq_program(rng):
+    """round 4: programs whose timed waits can be given EQUAL wake times (and wake times 1 us apart).  On the virtual
+    clock a wake time is reading + timeout and every reading moves the clock by 1 us, so equal wake times need timeouts
+    that compensate the distance of the readings: eq_adjust computes them from the trace of a first run.  Each worker
+    blocks in one timed wait (sleep / lock of a mutex the root holds / condvar wait / join of the last thread) while the
+    root sleeps longer; then all time out (several threads spliced at once, insertion among equal times)."""
+    nt = rng.choice([2, 3, 3, 4])
+    n = nt + 1
+    kinds = {}
+    for i in range(1, n):
+        kinds[i] = rng.choice(["z", "c", "w"] + (["j"] if i < nt else ["z"]))
+    tails = {i: [rng.choice([("y",), ("n", 3), ("s", 0), ("z", 0.00002), ("c", 1, 0.0001, [("n", 1)])]) for _ in range(rng.choice([0, 1, 2]))] for i in range(1, n)}
+    p = dict(nm=3, nc=1, df=True, n=n, eq=dict(kinds=kinds, tails=tails, nt=nt, t={i: 300 for i in range(1, n)}, off={i: 0 for i in range(1, n)}))
+    return _eq_build(p)
+
+
+def _eq_build(p):
+    e = p["eq"]
+    nt = e["nt"]
+    specs = [[("lk", 0)] + [("st", i) for i in range(1, nt + 1)] + [("z", 0.001), ("u", 0), ("b", 0)]]
+    for i in range(1, nt + 1):
+        t = e["t"][i]
+        tv = (t + 0.25) / 1e6
+        specs.append([_eq_op(e["kinds"][i], i, nt, tv)] + list(e["tails"][i]))
+    p["specs"] = specs
+    p["expr"] = fmt_prog(p)
+    return p
+
+
+def eq_adjust(rng, p, items):
+    """items: parsed trace of p under the schedule that will be used again.  Returns a copy of p whose workers' wake times
+    are d1 + off_i (off_i in {0, 0, 0, -1, +1}), or None when a worker's blocking line is not in the trace."""
+    e = p["eq"]
+    d = {}
+    for req, exp in items:
+        op = req.split()[0]
+        c = exp["C"]
+        if op in ("lock", "unlock", "join", "sleep") and exp["res"] == "#f" and c in e["kinds"] and c not in d and c in exp["T"]:
+            tm = exp["T"][c][2]
+            if _tv(tm):
+                d[c] = _tv(tm)
+    if set(d) != set(e["kinds"]):
+        return None
+    q = dict(p)
+    q["eq"] = dict(e, t=dict(e["t"]), off={})
+    for i in e["kinds"]:
+        off = 0 if i == 1 else rng.choice([0, 0, 0, -1, 1])
+        q["eq"]["off"][i] = off
+        q["eq"]["t"][i] = e["t"][i] - (d[i] - d[1]) + off
+        if q["eq"]["t"][i] < 1:
+            return None
+    return _eq_build(q)
+
+
 def gen_program(rng, force_term=None):
     """Deadlock-free by construction unless it uses terminate (df=False): nested critical sections take mutexes in
     increasing order; condvar waits only while holding exactly one mutex (the wait releases it) and untimed ones are
@@ -601,6 +688,8 @@ def trace_oracle(items, feats=None):
     dl = {}              # thread -> deadline in us, None = untimed
     locked = {}
     flags = {}
+    retry = {}           # round 4: thread -> ('join', t) | ('lock', m): woken because the awaited event happened (not by timeout),
+    killed = set()       # so the wrapper of interface.scm must retry the primitive: it is the thread's next primitive
     prevP, prevF, prevC = [], [], 0
     for k, (req, exp) in enumerate(items):
         h = req.split()
@@ -613,11 +702,21 @@ def trace_oracle(items, feats=None):
         left = [t for t in prevP if t not in P]
         woken = [t for t in left if (t in F or t == C)]
 
-        def block(kind, tmo="r"):
+        def block(kind, tmo="r", now=None):
             want[a] = kind
             tm = flags.get(a, ("", "", "0.000000"))[2]
             # the deadline the primitive was asked for: none when it was called without timeout
             dl[a] = None if (_tv(tm) == 0 or tmo == "n") else _tv(tm)
+            if tmo.startswith("r") and "." in tmo and now and "." in now:
+                # round 4 (deadline_exact): the wake time the real sexp_insert_timed stored must denote the instant
+                # clock reading + timeout (seconds and microseconds as the hook logged them)
+                ts, tu = tmo[1:].split(".")
+                asked = _tv(now) + int(ts) * 1000000 + int(tu)
+                if int(tu) and (_tv(now) % 1000000) + int(tu) >= 1000000:
+                    feat("carry:%s" % ("exactly-one-second" if (_tv(now) % 1000000) + int(tu) == 1000000 else "over"))
+                if _tv(tm) != asked:
+                    V("wake-time-is-not-now-plus-timeout", "%s by thread %d at %s: the stored wake time %s is %d us away from clock reading + timeout" % (req, a, now, tm, _tv(tm) - asked), k)
+                dl[a] = asked
             if tmo == "n" and _tv(tm) != 0:
                 V("untimed-wait-has-a-deadline", "%s by thread %d has no timeout but the thread's wake time is %s (it will be woken as timed out)" % (req, a, tm), k)
             if a not in P:
@@ -641,10 +740,17 @@ def trace_oracle(items, feats=None):
                 feat("%s:no-waiter" % kind[0])
             return G
 
+        if op != "sched" and a in retry:
+            need = retry.pop(a)
+            if not (op == need[0] and int(h[1]) == need[1]):
+                V("%s:gave-up-although-the-awaited-event-happened" % need[0], "thread %d was woken because %s (not by a timeout), but its next primitive is %r instead of the retry of %%%s: "
+                  "the wait was abandoned (timed wait reported as timed out / lock reported as failed)" % (a, "thread %d ended" % need[1] if need[0] == "join" else "mutex %d was unlocked" % need[1], req, "thread-join!" if need[0] == "join" else "mutex-lock!"), k)
         if op == "start":
             started.add(int(h[1]))
         elif op == "term":
             t = int(h[1])
+            killed.add(t)
+            retry.pop(t, None)
             if t in prevP:
                 feat("terminate:paused-thread")
                 if t not in F and t != C:
@@ -662,7 +768,7 @@ def trace_oracle(items, feats=None):
             else:
                 if not locked.get(m):
                     V("lock-refused-on-free-mutex", "thread %d: %%mutex-lock! blocked on mutex %d which is free" % (a, m), k)
-                block(("M", m), h[2])
+                block(("M", m), h[2], h[3])
         elif op == "unlock":
             m = int(h[1])
             if locked.get(m):
@@ -677,9 +783,11 @@ def trace_oracle(items, feats=None):
                     V("spurious-wakeup:mutex-unlock", "unlock of mutex %d made thread %d runnable, which waits for %s" % (m, t, want.get(t)), k)
                 elif flags[t][0][:2] != "00":
                     V("wake-flags:mutex-unlock", "thread %d woken by unlock has waitp/timeoutp = %s" % (t, flags[t][0][:2]), k)
+                elif t not in dead:
+                    retry[t] = ("lock", m)
                 want.pop(t, None)
             if h[2] != "-":
-                block(("C", int(h[2])), h[3])
+                block(("C", int(h[2])), h[3], h[4])
         elif op == "signal":
             c = int(h[1])
             G = check_wake(("C", c), "signal")
@@ -700,13 +808,16 @@ def trace_oracle(items, feats=None):
             if res == "#f":
                 if t in dead:
                     V("join-blocks-on-terminated-thread", "thread %d: %%thread-join! blocked on thread %d which has ended" % (a, t), k)
-                block(("T", t), h[2])
+                block(("T", t), h[2], h[3])
         elif op == "sleep":
-            block(("S",))
+            block(("S",), h[2], h[3])
         elif op == "sched":
             now1 = _tv(h[1])
             now2 = _tv(h[2])
             if a in flags and flags[a][0][2] == "0":
+                if a in retry and a not in killed:
+                    need = retry.pop(a)
+                    V("%s:gave-up-although-the-awaited-event-happened" % need[0], "thread %d was woken by the event it waited for (%s %d) and ended without retrying the primitive" % (a, need[0], need[1]), k)
                 if a not in ended:
                     dead.add(a)
                     ended.add(a)
@@ -716,6 +827,8 @@ def trace_oracle(items, feats=None):
                             V("lost-wakeup:join", "thread %d ended but thread %d joining it was not made runnable (paused before %s, after %s, run queue %s)" % (a, t, prevP, P, F), k)
                         elif flags[t][0][:2] != "00":
                             V("wake-flags:join", "joiner %d woken with waitp/timeoutp = %s" % (t, flags[t][0][:2]), k)
+                        elif t not in dead:
+                            retry[t] = ("join", a)
                         if t in woken:
                             woken.remove(t)
                         want.pop(t, None)
@@ -731,7 +844,7 @@ def trace_oracle(items, feats=None):
                     pass
                 elif d is None:
                     V("spurious-wakeup:scheduler", "the scheduler made thread %d runnable, which waits untimed for %s" % (t, want.get(t)), k)
-                elif d > limit + 10000:
+                elif d > limit:          # round 4: exact (was limit + 10 ms: with timeouts <= 2 ms no early wake-up could ever be seen)
                     V("wakeup-before-deadline", "the scheduler woke thread %d (waiting for %s) at %d us, %d us before its deadline" % (t, want.get(t), limit, d - limit), k)
                 elif fl[:2] != "01":
                     V("wake-flags:timeout", "thread %d woken by timeout has waitp/timeoutp = %s" % (t, fl[:2]), k)
@@ -741,7 +854,7 @@ def trace_oracle(items, feats=None):
             if C in want and flags[C][0][0] == "0" and C not in woken and C == a:
                 # the running thread's own timeout (woken in place)
                 d = dl.get(C)
-                if d is None or d > max(now1, now2 + 10000) + 10000:
+                if d is None or d > max(now1, now2 + 10000):
                     V("spurious-wakeup:scheduler", "the scheduler resumed thread %d, which still waits for %s (deadline %s, now %s)" % (C, want.get(C), d, now1), k)
                 want.pop(C, None)
             if now1:
@@ -762,6 +875,11 @@ def trace_oracle(items, feats=None):
             i, l, o = exp["M"]
             if (l == "1") != bool(locked.get(i, False)):
                 V("mutex-state", "mutex %d lock flag %s after %s" % (i, l, req), k)
+        tms = [flags[t][2] for t in P if t in flags and _tv(flags[t][2])]
+        if len(set(tms)) < len(tms):
+            feat("P:equal-wake-times")
+        if [1 for x in tms for y in tms if _tv(x) - _tv(y) == 1]:
+            feat("P:wake-times-1us-apart")
         prevP, prevF, prevC = P, F, C
     return viol
 
